@@ -1,6 +1,7 @@
 (* C02 - the generated regex can be pasted between the quotes of a SecRule line. Statements only. *)
 From Coq Require Import String Permutation.
 From Verif Require Import Base.Str Base.Lines Base.Outcome Regex.Re Regex.Equiv Model.Patterns Model.ParseLine Model.Passes Model.CmdLine Model.Parser Model.Assembler Model.Generate.
+From Verif Require Import Proofs.HexBsProofs.
 From Verif Require Import Proofs.EquivSound Proofs.PassesProofs Proofs.CmdLineProofs Proofs.ParserProofs Proofs.AssemblerProofs.
 From Verif Require Tie.Pin_perlSpaceClassRegexp_src Tie.Pin_const_regex_operators_assembler_perlSpaceClass.
 From Verif Require Tie.Pin_lits_regex_operators_assembler_Operator_escapeDoublequotes Tie.Pin_lits_regex_operators_assembler_Operator_useHexBackslashes Tie.Pin_lits_regex_operators_assembler_Operator_useHexEscapes Tie.Pin_lits_regex_operators_assembler_Operator_includeVerticalTabInSpaceClass Tie.Pin_lits_regex_operators_assembler_Operator_dontUseFlagsForMetaCharacters Tie.Pin_lits_regex_operators_assembler_Operator_removeGroup Tie.Pin_lits_regex_operators_assembler_Operator_removeOutermostNonCapturingGroup Tie.Pin_lits_regex_operators_assembler_Operator_findGroupBodyEnd Tie.Pin_lits_utils_utils_IsEscaped Tie.Pin_lits_regex_utils_IsEscaped Tie.Pin_lits_regex_operators_assembler_Operator_complete.
@@ -46,3 +47,8 @@ Theorem C02_final_text_shape :
 Proof. exact complete_shape. Qed.
 Print Assumptions C02_final_text_shape.
 
+
+(* a literal backslash is written only as \x5c: after useHexBackslashes no two backslashes are adjacent, for every input *)
+Theorem C02_no_backslash_pair : forall s, has_bs_pair (use_hex_backslashes s) = false.
+Proof. exact use_hex_backslashes_no_pair. Qed.
+Print Assumptions C02_no_backslash_pair.
